@@ -142,7 +142,7 @@ theorem pollBytes_specA {σ : Type} (step : σ → RdEv → σ × List Msg) (isD
       List.take_append_of_le_length hn
     have hdrop : (wireOfAll ms ++ A).drop n = (wireOfAll ms).drop n ++ A :=
       List.drop_append_of_le_length hn
-    have hnot : ¬ ((wireOfAll ms ++ A).length ≤ n) := by simp; omega
+    have hnot : ¬ ((wireOfAll ms ++ A).length < n) := by simp; omega
     simp only [hnd, Bool.false_eq_true, ↓reduceIte, htake, hrun, hnot, decide_false, Bool.and_false,
       hdrop]
     rw [← List.append_assoc, hrest]
@@ -211,7 +211,7 @@ theorem pollBytes_specA {σ : Type} (step : σ → RdEv → σ × List Msg) (isD
         unfold pollBytes
         simp only [hnd, Bool.false_eq_true, ↓reduceIte, htake, hthrough, List.append_nil, hsnd,
           Bool.not_false, Bool.true_and, hdrop]
-        by_cases heof : (closed && decide ((wireOfAll ms ++ A).length ≤ n)) = true
+        by_cases heof : (closed && decide ((wireOfAll ms ++ A).length < n)) = true
         · -- EOF with the incomplete data pulled: `UnexpectedEof`
           simp only [Bool.and_eq_true, decide_eq_true_eq] at heof
           have hkA : A.length ≤ k := by
@@ -221,7 +221,7 @@ theorem pollBytes_specA {σ : Type} (step : σ → RdEv → σ × List Msg) (isD
           have he := junk_incomplete A e hj hfr
           subst he
           refine ⟨ms.length, Nat.le_refl _, by simpa using hnb, Or.inr ⟨rfl, by simpa [hS] using hsnd, [], ?_⟩⟩
-          have hc : (closed && decide ((wireOfAll ms ++ A).length ≤ n)) = true := by
+          have hc : (closed && decide ((wireOfAll ms ++ A).length < n)) = true := by
             rw [heof.1]; simpa using heof.2
           simp only [hc, ↓reduceIte, htA, eofEvent, hA, List.take_length, hS, hO]
         · refine ⟨ms.length, Nat.le_refl _, by simpa using hnb, Or.inl ?_⟩
@@ -639,14 +639,11 @@ theorem refine_DA (P : Params) (A : Bytes) (bc : BCfg) (mc : Cfg) (n : Nat) (hre
       · refine ⟨List.replicate j .stepD ++ [.stepD], ?_⟩
         rw [foldl_append_moves, hiter, hb, hp]
         have hdrop : ms.drop j = [] := by rw [hjl]; simp
-        have hnd2' : dIsDone (runSteps (dStep P.lazy) bc.d ((ms.take j).map RdEv.msg)).1 = false := by
-          have := hnd2; simp [dStop] at this; exact this.1
+        have h2 := hnd2
+        rw [dStop, Bool.or_eq_false_iff] at h2
+        have hnd2' : dIsDone (runSteps (dStep P.lazy) bc.d ((ms.take j).map RdEv.msg)).1 = false := h2.1
         have hnexp : (isExpecting (runSteps (dStep P.lazy) bc.d ((ms.take j).map RdEv.msg)).1 &&
-            !isExpecting bc.d) = false := by
-          have := hnd2; simp [dStop] at this
-          cases h1 : isExpecting (runSteps (dStep P.lazy) bc.d ((ms.take j).map RdEv.msg)).1 with
-          | false => rfl
-          | true => simp [this.2 h1]
+            !isExpecting bc.d) = false := h2.2
         simp only [List.foldl_cons, List.foldl_nil, step]
         rw [stepD_eof P _ (by simp [hst']) (by
               intro r
@@ -662,8 +659,7 @@ theorem refine_DA (P : Params) (A : Bytes) (bc : BCfg) (mc : Cfg) (n : Nat) (hre
           intro s; cases s <;> simp [dStep, dIsDone]
         have hnoexp : ∀ s, isExpecting (dStep P.lazy s .eof).1 = false := by
           intro s; cases s <;> simp [dStep, isExpecting]
-        rw [hnexp, Bool.false_eq_true] at hemit
-        simp only [↓reduceIte, List.append_nil] at hemit
+        simp only [hnexp, Bool.false_eq_true, ↓reduceIte, List.append_nil] at hemit
         exact {
           hs := by simp [hst']
           hd := by simp [hrel.hd]
@@ -696,7 +692,58 @@ theorem refine_DA (P : Params) (A : Bytes) (bc : BCfg) (mc : Cfg) (n : Nat) (hre
           simp only
           rw [bytesOf_append, h, dEmit, bytesOf_append, bytesOf_msgs, List.append_assoc]
           congr 2
-          cases isExpecting (dStart P.lazy P.ds).1 <;> simp [isExpecting, hJA, bytesOf]
+          cases hx : isExpecting (dStart P.lazy P.ds).1 with
+          | false => simp [hx, bytesOf]
+          | true =>
+            simp only [hx, isExpecting, Bool.not_false, Bool.and_true, ↓reduceIte]
+            exact hJA.symm
       hdlc := by simp [hrel.hdlc] }
+
+theorem relA_init (A : Bytes) : RelA A binit init :=
+  { hs := rfl, hd := rfl, hl := rfl, hdl := Or.inr rfl, hdlc := rfl, hld := rfl, hldc := rfl }
+
+theorem junkOf_nil : junkOf [] = none := by simp [junkOf]
+
+/-- **Byte-level refinement with optimistic `V1Lazy` data**: for every delivery schedule of the
+byte-level network in which the lazily settling dialer writes `A` right behind its negotiation
+bytes, there is a schedule of the message-level system (with `junk = junkOf A`) reaching the same
+automaton states. -/
+theorem bytes_refine_lazy (P : Params) (A : Bytes) (hv : ∀ d ∈ P.ds, validName d = true)
+    (hjA : P.junk = junkOf A) (hok : A = [] ∨ ∃ e, junkOf A = some e) (bs : List BMove) :
+    ∃ sched, RelA A (bexecA P A bs) (exec P sched) := by
+  have hJA : bytesOf A (junkItems P) = A := by
+    unfold junkItems
+    rcases hok with rfl | ⟨e, he⟩
+    · rw [hjA, junkOf_nil]; rfl
+    · rw [hjA, he]; simp [bytesOf]
+  have hjA' : ∀ e, P.junk = some e → A ≠ [] ∧ junkOf A = some e := by
+    intro e he
+    rw [hjA] at he
+    refine ⟨?_, he⟩
+    intro hA
+    rw [hA, junkOf_nil] at he
+    cases he
+  have gen : ∀ (bs : List BMove) (bc : BCfg), (∃ sched, RelA A bc (exec P sched)) →
+      ∃ sched, RelA A (bs.foldl (bstepA P A) bc) (exec P sched) := by
+    intro bs
+    induction bs with
+    | nil => intro bc h; simpa using h
+    | cons mv rest ih =>
+      intro bc ⟨sched, hrel⟩
+      simp only [List.foldl_cons]
+      apply ih
+      obtain ⟨ph, hokp, he⟩ := reachable_shape P hv sched
+      cases mv with
+      | pollD n =>
+        have hld := shape_ld_msgs P hv ph hokp
+        rw [← he] at hld
+        obtain ⟨ex, hex⟩ := refine_DA P A bc (exec P sched) n hrel hJA hld
+        exact ⟨sched ++ ex, by simpa [exec, List.foldl_append, bstepA] using hex⟩
+      | pollL n =>
+        have hdl := shape_dl_split P hv ph hokp
+        rw [← he] at hdl
+        obtain ⟨ex, hex⟩ := refine_LA P A bc (exec P sched) n hrel hdl hjA'
+        exact ⟨sched ++ ex, by simpa [exec, List.foldl_append, bstepA] using hex⟩
+  exact gen bs binit ⟨[], by simpa [exec] using relA_init A⟩
 
 end C14
